@@ -122,6 +122,13 @@ func (e *Enc) exec(ins ssa.Instruction, st *State) {
 		}
 		return
 	case *ssa.Range:
+		if bt, ok := x.X.Type().Underlying().(*types.Basic); ok && bt.Info()&types.IsString != 0 && m == ModeInt {
+			// range over a string: the iterator is an object holding the byte position of the next rune
+			obj := e.newObj(st, "iter")
+			e.vals[x] = Val{T: x.Type(), L: []string{obj}}
+			e.store(st, types.Typ[types.Int], obj, m.ilit(0), Val{T: types.Typ[types.Int], L: []string{m.ilit(0)}})
+			return
+		}
 		e.vals[x] = Val{T: x.Type(), L: nil, Bad: true}
 		return
 	case *ssa.Next:
@@ -129,10 +136,19 @@ func (e *Enc) exec(ins ssa.Instruction, st *State) {
 		e.vals[x] = v
 		e.emitAssert(-1, e.typeFacts(v, st))
 		if x.IsString && !v.Bad && len(v.L) == 3 {
-			// (ok, index, rune): 0 <= index < len when ok
+			// (ok, index, rune): decoding at the iterator's position, which then advances by the rune's width
 			if rng, ok := x.Iter.(*ssa.Range); ok {
 				s := e.val(rng.X)
-				if !s.Bad {
+				it := e.vals[rng]
+				if !s.Bad && !it.Bad && len(it.L) == 1 {
+					e.needUTF8()
+					pos := e.def(e.fresh("itpos"), SI, e.sel2(e.heap(st, SI), it.L[0], m.ilit(0)))
+					inRange := and(m.ile(m.ilit(0), pos), m.ilt(pos, "(slen "+s.L[0]+")"))
+					e.emitAssert(e.curBlock, implies(e.reachHere(), and(eq(v.L[0], inRange),
+						implies(v.L[0], and(eq(v.L[1], pos), eq(v.L[2], "(utf8r "+s.L[0]+" "+pos+")"))))))
+					np := ite(v.L[0], m.iadd(pos, "(utf8w "+s.L[0]+" "+pos+")"), pos)
+					e.store(st, types.Typ[types.Int], it.L[0], m.ilit(0), Val{T: types.Typ[types.Int], L: []string{np}})
+				} else if !s.Bad {
 					e.needStr()
 					e.emitAssert(-1, implies(v.L[0], and(m.ile(m.ilit(0), v.L[1]), m.ilt(v.L[1], "(slen "+s.L[0]+")"))))
 				}
